@@ -1,0 +1,13 @@
+//go:build verif
+
+package trzsz
+
+// verifHook is installed by the verification harness ( build tag `verif` ) before the code under
+// observation starts; it records the point and may delay the calling goroutine.
+var verifHook func(point string, args ...int)
+
+func vhook(point string, args ...int) {
+	if h := verifHook; h != nil {
+		h(point, args...)
+	}
+}
